@@ -12,6 +12,8 @@
 //! model), `soak` (long runs, aggregated log).
 
 use qmc::sse::fast_ops::*;
+use qmc::sse::qmc_types::OpSide;
+type Leg = (usize, OpSide);
 use qmc::sse::*;
 use qmc::util::allocator::{verif_log, Factory, Reset};
 use qmc::util::bondcontainer::BondContainer;
@@ -1280,6 +1282,180 @@ fn large_scenarios(out: &mut Out, gen: &mut SplitMix64, thorough: bool) {
     }
 }
 
+/// Everything the snapshot says is free must really be borrowable through the public `Factory` interface
+/// (on a clone), and must be blank.
+fn borrow_everything(m: &FastOps) -> Option<String> {
+    let counts = snap(m);
+    let mut m = m.clone();
+    let r = catch(|| {
+        let mut bad: Option<String> = None;
+        let u: Vec<Vec<usize>> = (0..counts[0]).map(|_| m.get_instance()).collect();
+        let b: Vec<Vec<bool>> = (0..counts[1]).map(|_| m.get_instance()).collect();
+        let s: Vec<Vec<OpSide>> = (0..counts[2]).map(|_| m.get_instance()).collect();
+        let l: Vec<Vec<Leg>> = (0..counts[3]).map(|_| m.get_instance()).collect();
+        let o: Vec<Vec<Option<usize>>> = (0..counts[4]).map(|_| m.get_instance()).collect();
+        let f: Vec<Vec<f64>> = (0..counts[5]).map(|_| m.get_instance()).collect();
+        let c: Vec<BondContainer<usize>> = (0..counts[6]).map(|_| m.get_instance()).collect();
+        let v: Vec<BondContainer<VarPos>> = (0..counts[7]).map(|_| m.get_instance()).collect();
+        let h: Vec<std::collections::BinaryHeap<std::cmp::Reverse<usize>>> = (0..counts[8]).map(|_| m.get_instance()).collect();
+        let dirty = u.iter().any(|x| !x.is_empty())
+            || b.iter().any(|x| !x.is_empty())
+            || s.iter().any(|x| !x.is_empty())
+            || l.iter().any(|x| !x.is_empty())
+            || o.iter().any(|x| !x.is_empty())
+            || f.iter().any(|x| !x.is_empty())
+            || c.iter().any(|x| !x.verif_is_clean())
+            || v.iter().any(|x| !x.verif_is_clean())
+            || h.iter().any(|x| !x.is_empty());
+        if dirty {
+            bad = Some("a pooled buffer borrowed through Factory is not blank".to_string());
+        }
+        bad
+    });
+    let _ = verif_log::take();
+    match r {
+        Ok(b) => b,
+        Err(msg) => Some(format!("borrowing the advertised free instances through Factory panicked: {}", msg)),
+    }
+}
+
+/// MEDIUM-size regimes the small scenarios never reach: more than 1024 variables; RVB regions of more than
+/// 32 / 128 world lines (3-d lattice, fully connected ±J model); an operator string of ~8000 slots on 8 spins.
+fn medium_scenarios(out: &mut Out, gen: &mut SplitMix64, thorough: bool) {
+    type C = CfgDefault;
+    let seeds = if thorough { 3 } else { 1 };
+    let fresh = snap(&FastOps::new_from_nvars(1));
+    let finish = |out: &mut Out, tag: &str, g: &IG<C>| {
+        let mut problems = vec![];
+        let now = snap_ig::<C>(g);
+        if now != fresh {
+            problems.push(format!("occupancy at rest {} differs from a fresh pool's {}", list(&now), list(&fresh)));
+        }
+        if let Some(p) = borrow_everything(g.get_manager_ref()) {
+            problems.push(p);
+        }
+        emit(false, &format!("caps {}:end", tag), &list(&now), Some(if problems.is_empty() { Ok(()) } else { Err(format!("{}: {}", tag, problems.join("; "))) }));
+    };
+    for sd in 0..seeds {
+        // (a) 34 x 34 torus: 1156 variables, RVB on
+        {
+            let l = 34usize;
+            let mut e = vec![];
+            for y in 0..l {
+                for x in 0..l {
+                    e.push((y * l + x, y * l + (x + 1) % l));
+                    e.push((y * l + x, ((y + 1) % l) * l + x));
+                }
+            }
+            let lat = Lattice { name: "torus34x34".into(), nvars: l * l, edges: e };
+            let js: Vec<f64> = lat.edges.iter().map(|_| if gen.chance(1, 3) { -1.0 } else { 1.0 }).collect();
+            let seed = gen.next();
+            let beta = 0.5;
+            let tag = format!("medium:ising:{}:G1d1:h0d1:b{}:rvb1:s{}", lat.name, show_f(beta), seed);
+            let mut g = build_ising::<C>(&lat, &js, 1.0, 0.0, 2 * lat.nvars, seed, false, true);
+            out.count("scen_medium_torus34");
+            let lab = |s: &str| format!("{}:{}", tag, s);
+            let alive = observe(out, "rvb", &lab("cold:single_rvb_sweep(Some(3))"), &mut g, snap_ig::<C>, |g| {
+                g.single_rvb_sweep(Some(3));
+            }) && observe(out, "istep", &lab("timestep#0"), &mut g, snap_ig::<C>, |g| {
+                g.timestep(beta);
+            }) && observe(out, "rvb", &lab("single_rvb_sweep(Some(5))"), &mut g, snap_ig::<C>, |g| {
+                g.single_rvb_sweep(Some(5));
+            }) && observe(out, "istep", &lab("timestep#1"), &mut g, snap_ig::<C>, |g| {
+                g.timestep(beta);
+            }) && observe(out, "rvb", &lab("single_rvb_sweep(Some(4))"), &mut g, snap_ig::<C>, |g| {
+                g.single_rvb_sweep(Some(4));
+            });
+            if alive {
+                finish(out, &tag, &g);
+            }
+        }
+        // (b) cubic 6 x 6 x 6 and a 150-spin fully connected ±J model: regions of > 32 and > 128 world lines
+        for which in 0..2 {
+            let lat = if which == 0 {
+                let l = 6usize;
+                let idx = |x: usize, y: usize, z: usize| (z * l + y) * l + x;
+                let mut e = vec![];
+                for z in 0..l {
+                    for y in 0..l {
+                        for x in 0..l {
+                            e.push((idx(x, y, z), idx((x + 1) % l, y, z)));
+                            e.push((idx(x, y, z), idx(x, (y + 1) % l, z)));
+                            e.push((idx(x, y, z), idx(x, y, (z + 1) % l)));
+                        }
+                    }
+                }
+                Lattice { name: "cubic6x6x6".into(), nvars: l * l * l, edges: e }
+            } else {
+                let n = 150usize;
+                let mut e = vec![];
+                for a in 0..n {
+                    for b in a + 1..n {
+                        e.push((a, b));
+                    }
+                }
+                Lattice { name: "complete150".into(), nvars: n, edges: e }
+            };
+            let jmag = if which == 0 { 1.0 } else { 0.0625 };
+            let js: Vec<f64> = lat.edges.iter().map(|_| if gen.coin() { -jmag } else { jmag }).collect();
+            let seed = gen.next();
+            let beta = 1.0;
+            let tag = format!("medium:ising:{}:J{}:G1d1:h0d1:b{}:s{}", lat.name, show_f(jmag), show_f(beta), seed);
+            // RVB is driven explicitly (a fixed number of proposals per step keeps the run short)
+            let mut g = build_ising::<C>(&lat, &js, 1.0, 0.0, 4 * lat.nvars, seed, false, false);
+            out.count(if which == 0 { "scen_medium_cubic6" } else { "scen_medium_complete150" });
+            let mut alive = true;
+            let mut acc = 0usize;
+            for st in 0..60 {
+                let lab = |s: &str| format!("{}:step{}:{}", tag, st, s);
+                let mut res = (0, 0);
+                alive = observe(out, "istep", &lab("timestep"), &mut g, snap_ig::<C>, |g| {
+                    g.timestep(beta);
+                }) && observe(out, "rvb", &lab("single_rvb_sweep(Some(6))"), &mut g, snap_ig::<C>, |g| {
+                    res = g.single_rvb_sweep(Some(6));
+                });
+                acc += res.0;
+                if !alive {
+                    break;
+                }
+            }
+            out.add("medium_rvb_accepted", acc as u64);
+            if alive {
+                finish(out, &tag, &g);
+            }
+        }
+        // (c) 8 spins at beta = 200: operator string of ~8000 slots; cluster update then diagonal update
+        {
+            let n = 8usize;
+            let lat = Lattice { name: "ring8".into(), nvars: n, edges: (0..n).map(|i| (i, (i + 1) % n)).collect() };
+            let js = vec![1.0; n];
+            let seed = gen.next();
+            let beta = 200.0;
+            let tag = format!("medium:ising:ring8:G1d1:h0d1:b{}:c8000:s{}", show_f(beta), seed);
+            let mut g = build_ising::<C>(&lat, &js, 1.0, 0.0, 8000, seed, false, false);
+            out.count("scen_medium_ring8_beta200");
+            let mut alive = true;
+            for st in 0..4 {
+                let lab = |s: &str| format!("{}:step{}:{}", tag, st, s);
+                alive = observe(out, "diag", &lab("single_diagonal_step"), &mut g, snap_ig::<C>, |g| g.single_diagonal_step(beta))
+                    && observe(out, "cluster", &lab("single_cluster_step"), &mut g, snap_ig::<C>, |g| {
+                        g.single_cluster_step();
+                    })
+                    && observe(out, "diag", &lab("single_diagonal_step(after cluster)"), &mut g, snap_ig::<C>, |g| g.single_diagonal_step(beta));
+                if !alive {
+                    break;
+                }
+            }
+            let e = out.stats.entry("medium_ring8_cutoff".to_string()).or_insert(0);
+            if alive {
+                *e = (*e).max(g.get_cutoff() as u64);
+                finish(out, &tag, &g);
+            }
+        }
+        let _ = sd;
+    }
+}
+
 fn tempering_scenarios<C: Cfg>(out: &mut Out, gen: &mut SplitMix64, thorough: bool, share: (usize, usize)) {
     type TC<K> = TemperingContainer<SplitMix64, IG<K>>;
     let lats = lattices(false);
@@ -1787,6 +1963,7 @@ fn main() {
             generic_scenarios::<CfgDefault>(&mut out, &mut gen, a.thorough, (1, 1));
             tempering_scenarios::<CfgDefault>(&mut out, &mut gen, a.thorough, (1, 1));
             large_scenarios(&mut out, &mut gen, a.thorough);
+            medium_scenarios(&mut out, &mut gen, a.thorough);
             // the public wrapper allocator in front of a bounded pool: same oracles, same grammars
             ising_scenarios::<CfgSwitchPool>(&mut out, &mut gen, a.thorough, (1, 3));
             generic_scenarios::<CfgSwitchPool>(&mut out, &mut gen, a.thorough, (1, 3));
